@@ -33,6 +33,12 @@ CLAIMED = {
             "(so every burst <= 8/16 bits is detected); all explicit panic constructs reachable from the stream "
             "parser are enumerated and individually discharged; implicit (arithmetic/index) panics are not decided.",
             "4/C16"),
+    "C18": ("PANICSITE (explicit panic constructs from constructors/Verify impls, SAFE table with machine-checked "
+            "premises) + DIVGUARD + CASTCHECK + block-size lower-bound RANGE",
+            "Narrow: every explicit panic construct, every division by a runtime value, every narrowing cast of a "
+            "constructor argument and every zero-able block size in the constructor/verify universe is an obligation "
+            "that is discharged structurally (dominating `?`-propagated range check) or reported. Overflow/shift/"
+            "index panics and the serialise->parse identity are not decided.", "4/C18"),
 }
 
 NA = {
